@@ -297,7 +297,7 @@ def infer_patterns(qf):
             args = e.children()[1:]
             arrs = [a for a in _chain(e.arg(0))]
             kind = 'sel'
-            keys = [a.get_id() for a in arrs if a.num_args() == 0 or a.decl().kind() != z3.Z3_OP_STORE]
+            keys = [a.get_id() for a in arrs if not z3.is_app(a) or a.num_args() == 0 or a.decl().kind() != z3.Z3_OP_STORE]
         elif k == z3.Z3_OP_UNINTERPRETED and e.num_args() > 0:
             args = e.children()
             kind = 'app'
@@ -381,7 +381,7 @@ def match_patterns(qf, pats, idx, apps, by_arr, singles, cap=400, priority=None)
 class SpecFun:
     """Uninterpreted function with a definitional unfolding instantiated at occurrences."""
 
-    def __init__(self, name, decl, unfold, depth=2):
+    def __init__(self, name, decl, unfold, depth=8):
         self.name = name
         self.decl = decl
         self.unfold = unfold   # fn(*args) -> Form (the defining equation for this application) or None
@@ -595,6 +595,145 @@ def simplify_all(asserts):
     return out
 
 
+class _Purifier:
+    """Sound abstraction of a VC into QF_NRA: integers are read as reals, every non-arithmetic term
+    (uninterpreted application, array select, int division...) becomes a fresh real/bool constant
+    (same term -> same constant). unsat of the abstraction implies unsat of the VC."""
+
+    def __init__(self):
+        self.cache = {}
+        self.atoms = {}
+        self.keep = []
+
+    def atom(self, e, sort):
+        k = e.get_id()
+        if k not in self.atoms:
+            self.keep.append(e)
+            self.atoms[k] = z3.Const('pur!%d' % len(self.atoms), sort)
+        return self.atoms[k]
+
+    def num(self, e):
+        k = ('n', e.get_id())
+        if k in self.cache:
+            return self.cache[k]
+        r = self._num(e)
+        self.cache[k] = r
+        self.keep.append(e)
+        return r
+
+    def _num(self, e):
+        R = z3.RealSort()
+        if z3.is_int_value(e):
+            return z3.RealVal(e.as_long())
+        if z3.is_rational_value(e):
+            return e
+        if not z3.is_app(e):
+            return self.atom(e, R)
+        k = e.decl().kind()
+        ch = e.children()
+        if k == z3.Z3_OP_TO_REAL:
+            return self.num(ch[0])
+        if k == z3.Z3_OP_ADD:
+            return z3.Sum([self.num(c) for c in ch])
+        if k == z3.Z3_OP_SUB:
+            r = self.num(ch[0])
+            for c in ch[1:]:
+                r = r - self.num(c)
+            return r
+        if k == z3.Z3_OP_UMINUS:
+            return -self.num(ch[0])
+        if k == z3.Z3_OP_MUL:
+            r = self.num(ch[0])
+            for c in ch[1:]:
+                r = r * self.num(c)
+            return r
+        if k == z3.Z3_OP_DIV and e.sort() == R:
+            return self.num(ch[0]) / self.num(ch[1])
+        if k == z3.Z3_OP_POWER and z3.is_int_value(ch[1]) and 0 <= ch[1].as_long() <= 8:
+            b = self.num(ch[0])
+            r = z3.RealVal(1)
+            for _ in range(ch[1].as_long()):
+                r = r * b
+            return r
+        if k == z3.Z3_OP_ITE:
+            c = self.boolean(ch[0])
+            if c is not None:
+                return z3.If(c, self.num(ch[1]), self.num(ch[2]))
+        return self.atom(e, R)
+
+    def boolean(self, e):
+        k = ('b', e.get_id())
+        if k in self.cache:
+            return self.cache[k]
+        r = self._bool(e)
+        self.cache[k] = r
+        self.keep.append(e)
+        return r
+
+    def _bool(self, e):
+        if z3.is_true(e) or z3.is_false(e):
+            return e
+        if not z3.is_app(e):
+            return None
+        k = e.decl().kind()
+        ch = e.children()
+        if k in (z3.Z3_OP_AND, z3.Z3_OP_OR):
+            cs = [self.boolean(c) for c in ch]
+            if any(c is None for c in cs):
+                return None
+            return z3.And(*cs) if k == z3.Z3_OP_AND else z3.Or(*cs)
+        if k == z3.Z3_OP_NOT:
+            c = self.boolean(ch[0])
+            return None if c is None else z3.Not(c)
+        if k == z3.Z3_OP_IMPLIES:
+            a, b = self.boolean(ch[0]), self.boolean(ch[1])
+            return None if a is None or b is None else z3.Implies(a, b)
+        if k in (z3.Z3_OP_EQ, z3.Z3_OP_DISTINCT) and len(ch) == 2:
+            if ch[0].sort() in (z3.IntSort(), z3.RealSort()):
+                a, b = self.num(ch[0]), self.num(ch[1])
+                return a == b if k == z3.Z3_OP_EQ else a != b
+            if ch[0].sort() == z3.BoolSort():
+                a, b = self.boolean(ch[0]), self.boolean(ch[1])
+                if a is None or b is None:
+                    return None
+                return a == b if k == z3.Z3_OP_EQ else a != b
+            return None
+        if k in (z3.Z3_OP_LE, z3.Z3_OP_LT, z3.Z3_OP_GE, z3.Z3_OP_GT):
+            a, b = self.num(ch[0]), self.num(ch[1])
+            return {z3.Z3_OP_LE: a <= b, z3.Z3_OP_LT: a < b, z3.Z3_OP_GE: a >= b, z3.Z3_OP_GT: a > b}[k]
+        if k == z3.Z3_OP_ITE and e.sort() == z3.BoolSort():
+            c, a, b = self.boolean(ch[0]), self.boolean(ch[1]), self.boolean(ch[2])
+            if c is None or a is None or b is None:
+                return None
+            return z3.If(c, a, b)
+        if k == z3.Z3_OP_UNINTERPRETED and e.sort() == z3.BoolSort() and e.num_args() == 0:
+            return e
+        return None
+
+
+def purify_nra(asserts):
+    """Abstraction to nonlinear real arithmetic. Integer-valued comparisons are read over the reals, which
+    loses integrality (sound for unsat). Assertions that cannot be abstracted are dropped (sound for unsat)."""
+    P = _Purifier()
+    out = []
+    for a in asserts:
+        a = z3.simplify(a, som=True)
+        b = P.boolean(a)
+        if b is not None:
+            out.append(b)
+    return out
+
+
+def nra_check(text, timeout):
+    fs = z3.parse_smt2_string(text)
+    out = purify_nra(list(fs))
+    t = z3.Then(z3.With('simplify', som=True), 'solve-eqs', z3.With('simplify', som=True), 'qfnra-nlsat')
+    s = t.solver()
+    s.set('timeout', int(timeout * 1000))
+    s.add(*out)
+    return s.check()
+
+
 def smt2_of(assertions, logic=None):
     s = z3.Solver()
     for a in assertions:
@@ -607,6 +746,10 @@ def solve_text(args):
     text, timeout, backend = args
     t0 = time.time()
     try:
+        if backend == 'z3py-nra':
+            r = nra_check(text, timeout)
+            # the abstraction only proves: sat/unknown are not verdicts
+            return ('unsat' if r == z3.unsat else 'unknown'), time.time() - t0, backend
         if backend == 'z3py':
             s = z3.Solver()
             s.set('timeout', int(timeout * 1000))
